@@ -14,7 +14,7 @@
   SE / AV are shared with C02 (sections print each group once) and C08 (average census).
 """
 from .common import *   # noqa: F401,F403
-from . import reader, cfg, C02, C08
+from . import reader, cfg, C02, C08, C14
 from pyvc.core import Builtin
 
 GM = 'propka.group.'
@@ -211,6 +211,25 @@ def task_setup(pr, repo):
             ctx.oblige('SU[%s/%s]: model pKa = configured value of the residue type, charge = configured charge of the group type '
                        '(ions: ion table), titratable <=> model pKa known and not disulfide-bridged' % (rt, typ), And(*conj))
         pr.explore(ex, thunk, 'Group.setup %s' % rt)
+    # configured per-residue-atom overrides (nucleotides): residue names are stored as 3-column fields ('DA '), atom names stripped
+    from props import cfg as cfgmod
+    keys = sorted(cfgmod.parameters().custom_model_pkas)
+    pr.add(Ground('SU(custom): the shipped file configures per residue-atom model pKa overrides', len(keys) > 0, 'custom_model_pkas'))
+    for key in keys:
+        rn, an = key.split('-')
+
+        def thunk2(ex, ctx, rn=rn, an=an, key=key):
+            at = mkatom(repo, cysteine_bridge=False, res_name='%-3s' % rn, name=an)
+            params = record('P', None, charge={'OP': R('q_OP'), 'N1': R('q_OP')}, ions={}, model_pkas={'OP': R('pk_T'), 'N1': R('pk_T')},
+                            custom_model_pkas={key: R('pk_custom'), 'ZZ-ZZ': R('pk_other')})
+            typ = 'OP' if an.startswith('OP') else 'N1'
+            g = record('g', Gc, atom=at, type=typ, residue_type=typ, parameters=params, model_pka_set=False, model_pka=0.0, charge=0,
+                       titratable=True)
+            g.attrs['setup_atoms'] = Builtin('setup_atoms', lambda ex, *a, **k: None)
+            ex.call_function(fi, [], self_obj=g)
+            ctx.oblige('SU(custom %s): an atom of residue field %r, name %r gets the model pKa configured for %s, not the generic one of '
+                       'its group type' % (key, '%-3s' % rn, an, key), g.attrs['model_pka'] == R('pk_custom'))
+        pr.explore(ex, thunk2, 'Group.setup custom %s' % key)
 
 
 def task_extract(pr, repo):
@@ -263,7 +282,7 @@ def run(pr, repo):
     ground(pr, repo)
     tasks = [(task_reader, (t,)) for t in reader.TAGS] + [(task_classify, ()), (task_setup, ()), (task_extract, ()),
                                                            (C02.task_sections, ()), (C08.task_average_twins, ()),
-                                                           (C08.task_average, (2,))]
+                                                           (C08.task_average, (2,)), (C14.task_init_group, ())]
     pr.parallel(tasks)
     pr.assumptions += ['stutter/simulation rule lifts the per-record automaton to whole files; atom-name classes as listed in '
                        'props/reader.py', 'composition step "nothing else is reported" (bounded census monitor)',
